@@ -194,6 +194,29 @@ def work_operand(chunk):
     return _check_cases(cases)
 
 
+def work_index_and_float(chunk):
+    """An integer index after a dot and a float literal elsewhere in the same chain: the index is an operand of the dot,
+    the float stays one operand. (A float directly next to a dot is left out: `0 . 1` is lexically the float 0.1.)"""
+    cases = []
+    for length, idx in chunk:
+        ops = decode_chain(idx, length)
+        n = length + 1
+        for k, op in enumerate(ops):
+            if op != ".":
+                continue
+            # operand k+1 is the index; it must not touch another dot
+            if k + 1 < length and ops[k + 1] == ".":
+                continue
+            for p in range(n):
+                if p == k + 1 or (p > 0 and ops[p - 1] == ".") or (p < length and ops[p] == "."):
+                    continue
+                items = list(NAMES[:n])
+                items[k + 1] = ("x", "0", ["int", "0"])
+                items[p] = ("x", "1.5", ["float", "1.5"])
+                cases.append(("index+float", items, list(ops)))
+    return _check_cases(cases)
+
+
 def run(ctx):
     thorough = ctx.tier == "thorough"
     maxlen = 5 if thorough else 4
@@ -201,7 +224,8 @@ def run(ctx):
                   "operand_chain_length": 2, "operators": 18}
     ctx.rule = ("every sequence of 1..%d operators over all 18 binary operators between distinct symbols; for chains <= 3 every "
                 "placement of one pair and of two pairs (nested or disjoint) of parentheses around contiguous sub-chains; for chains <= 2 every "
-                "operand position x 9 closed operand forms. Each case is a distinct source text; non-trivial = has >= 2 operators or a "
+                "operand position x 9 closed operand forms; every chain of 2..3 operators with a dot whose right operand is an integer index and a float literal at "
+                "every other position that does not touch a dot. Each case is a distinct source text; non-trivial = has >= 2 operators or a "
                 "parenthesis or a compound operand (the tree shape is not forced by arity alone)." % maxlen)
     failing = []
 
@@ -236,6 +260,10 @@ def run(ctx):
     # (iii) operand independence
     items = [(length, idx) for length in range(1, 3) for idx in range(18 ** length)]
     for part in core.pmap(work_operand, items, chunk=20):
+        absorb(part, None)
+
+    items = [(length, idx) for length in range(2, 4) for idx in range(18 ** length) if "." in decode_chain(idx, length)]
+    for part in core.pmap(work_index_and_float, items, chunk=40):
         absorb(part, None)
 
     # signatures: minimal failing operator sequences
